@@ -52,11 +52,11 @@ Pred(s) == CASE s = "from" -> "call" [] s = "where" -> "from" [] s = "group" -> 
              [] s = "window" -> "order" [] OTHER -> "?"
 
 Computed(s) ==
-    CASE s = "from"     -> (IF q.k = "union" THEN RunQ([q EXCEPT !.limit = -1, !.offset = -1], doc) ELSE Source(q.from, data))
+    CASE s = "from"     -> (IF q.k = "union" THEN RunQ([q EXCEPT !.all = TRUE, !.limit = -1, !.offset = -1], doc) ELSE Source(q.from, data))
       [] s = "where"    -> (IF q.k = "union" THEN ArrV(work) ELSE StWhere(q, data, work))
       [] s = "group"    -> (IF q.k = "union" THEN ArrV(work) ELSE StGroup(q, data, work))
       [] s = "select"   -> (IF q.k = "union" THEN ArrV(work) ELSE StSelect(q, data, work))
-      [] s = "distinct" -> (IF q.k = "union" THEN ArrV(work) ELSE StDistinct(q, work))
+      [] s = "distinct" -> (IF q.k = "union" THEN (IF q.all THEN ArrV(work) ELSE ArrV(Dedup(work))) ELSE StDistinct(q, work))
       [] s = "window"   -> StWindow(q, work)
       [] OTHER -> Err
 
